@@ -70,6 +70,12 @@ static void body(void) {
         }
         n = pos; snprintf(sdesc, sizeof sdesc, "longlen %s=%zu edge%d many%d twice%d", isLit ? "lit" : "match", len, edge, many, twice);
         if (entry == 0) { p.splitter = 1 + vx_choose(2); if (p.windowLog && p.windowLog < 19) p.windowLog = 19; }
+    } else if (!strcmp(g_set, "lens")) {
+        /* every input length 0..L in three textures (checksum / content-size bookkeeping is per length, not per content) */
+        int L = (int)vx_opt_int("--L", 200); int len = vx_choose(L + 1), tex = vx_choose(3);
+        if (tex == 0) fill_text(g_src, (size_t)len, 5); else if (tex == 1) fill_noise(g_src, (size_t)len, 6); else memset(g_src, 0, (size_t)len);
+        n = (size_t)len; snprintf(sdesc, sizeof sdesc, "len=%d texture%d", len, tex);
+        if (entry <= 1) p.checksum = 1;
     } else if (!strcmp(g_set, "ab")) {
         /* every string over {a,b} of length <= L */
         int L = (int)vx_opt_int("--L", 12); int len = vx_choose(L + 1);
